@@ -12,7 +12,7 @@ NULL = -1000001
 
 
 # --------------------------------------------------------------------------------------------- data
-def make_tables(seed, nrows=(9, 7), nulls=True, wide=False, presorted=False, t2_index="overlap"):
+def make_tables(seed, nrows=(9, 7), nulls=True, wide=False, presorted=False, t2_index="overlap", hi=4):
     """two small pandas tables T1(a, b, k), T2(k, b, c) with duplicate keys, NULLs, unique sorted int index 'ix'"""
     import numpy as np
     import pandas as pd
@@ -22,10 +22,11 @@ def make_tables(seed, nrows=(9, 7), nulls=True, wide=False, presorted=False, t2_
         return [np.nan if (nulls and rnd.random() < pnull) else float(rnd.randrange(0, hi)) for _ in range(n)]
 
     n1, n2 = nrows
-    t1 = pd.DataFrame({"a": col(n1, 4, 0.15), "b": col(n1, 3, 0.1), "k": col(n1, 4, 0.1)},
-                      index=pd.Index(sorted(rnd.sample(range(0, 40), n1)), name="ix"))
-    t2 = pd.DataFrame({"k": col(n2, 5, 0.1), "b": col(n2, 3, 0.0), "c": col(n2, 4, 0.15)},
-                      index=pd.Index(sorted(rnd.sample(range(0, 40), n2)), name="ix"))
+    span = max(40, 4 * max(n1, n2))
+    t1 = pd.DataFrame({"a": col(n1, hi, 0.15), "b": col(n1, 3, 0.1), "k": col(n1, hi, 0.1)},
+                      index=pd.Index(sorted(rnd.sample(range(0, span), n1)), name="ix"))
+    t2 = pd.DataFrame({"k": col(n2, hi + 1, 0.1), "b": col(n2, 3, 0.0), "c": col(n2, 4, 0.15)},
+                      index=pd.Index(sorted(rnd.sample(range(0, span), n2)), name="ix"))
     if t2_index in ("touch", "after"):
         # T2's index range starts exactly at (touch) / strictly after T1's last label: axis=0 concat can keep divisions
         start = int(t1.index.max()) + (0 if t2_index == "touch" else 3)
